@@ -89,6 +89,20 @@ and are not inspected.) -/
 theorem ir_has_no_interior_mutability : immutableFrom typeDefs sharedTypes = true := by
   decide +kernel
 
+/-- SUFFICIENT structural condition on global state, stronger than the property needs: every
+`static` of `trustfall_core/src` compiled outside `#[cfg(test)]` (re-extracted from the source on
+every run, function-local statics included) can only be written at initialisation — it is a plain
+`static` (no `static mut`, no `thread_local!`, no `lazy_static!`) whose type is `OnceLock<T>` /
+`LazyLock<T>` over data free of cells, locks and atomics, or plain immutable data.  With
+`ir_has_no_interior_mutability` this says that compiling and executing a query reads and writes no
+state shared between threads other than write-once constants, so concurrent runs cannot influence
+each other.  A `static Mutex<…>` cache is `Sync` and adds no interior mutability to any IR type, yet
+lets one execution observe another's data.  A correctly synchronised global cache would break this
+obligation while keeping the property: when this theorem stops checking, the verdict rests on the
+harness's concurrency exploration to exhibit a failing schedule (`no-failing-input-found` if it
+finds none). -/
+theorem statics_are_write_once : staticsWriteOnce typeDefs statics = true := by decide +kernel
+
 /-! Non-vacuity: the derivation does say "no" — an `Rc` or a `Cell` vertex poisons a context, a
 boxed iterator is not `Send`, and `Schema` (which does use `HashMap`) fails the ordered-maps check. -/
 example : sendSync typeDefs (.path "DataContext" [.path "Rc" [.tuple []]]) = (false, false) := by
@@ -104,6 +118,20 @@ example : mentionsInterior (.path "Arc" [.path "RwLock" [.path "Vec" [.path "u8"
   decide +kernel
 example : mentionsInterior (.path "Option" [.path "AtomicUsize" []]) = true := by decide +kernel
 example : immutableFrom typeDefs ["NoSuchType"] = false := by decide +kernel
+example : statics.isEmpty = false := by decide +kernel
+example : staticWriteOnce typeDefs
+    { name := "LAST", kind := "static", mutable := false, src := "x.rs",
+      ty := .path "Mutex" [.path "Option" [.tuple [.path "String" [], .path "Option" [.path "Regex" []]]]] }
+    = false := by decide +kernel
+example : staticWriteOnce typeDefs
+    { name := "N", kind := "static", mutable := false, src := "x.rs", ty := .path "AtomicUsize" [] } = false := by
+  decide +kernel
+example : staticWriteOnce typeDefs
+    { name := "M", kind := "static", mutable := true, src := "x.rs", ty := .path "u64" [] } = false := by
+  decide +kernel
+example : staticWriteOnce typeDefs
+    { name := "T", kind := "thread_local", mutable := false, src := "x.rs", ty := .other "thread_local!" } = false := by
+  decide +kernel
 example : (reachable typeDefs defaultFuel irTypes).length ≥ 20 := by decide +kernel
 
 end TF.C24
@@ -125,3 +153,4 @@ end TF.C14
 #print axioms TF.C24.ir_maps_ordered
 #print axioms TF.C24.ir_reachable_ordered
 #print axioms TF.C24.ir_has_no_interior_mutability
+#print axioms TF.C24.statics_are_write_once
